@@ -10,13 +10,14 @@ TAU = {1: 0.5, 2: 0.25, 3: 0.2504}
 Y0 = dict(x=0.5, z=0.75, w=1.25)
 
 
-def build(m, lit_delays=False):
+def build(m, lit_delays=False, order=(0, 1, 2)):
     from pyrates import OperatorTemplate, NodeTemplate, CircuitTemplate
     eqs = []
     uses_m = any('m' in e.replace('sigmoid', '').replace('sum', '') and (' m ' in f' {e} ' or 'm *' in e or '* m' in e) for e in m['eqs'])
     if uses_m:
         eqs.append('m = z * w')
-    eqs += [f"d/dt * x = {m['eqs'][0]}", f"d/dt * z = {m['eqs'][1]}", f"d/dt * w = {m['eqs'][2]}"]
+    des = [f"d/dt * x = {m['eqs'][0]}", f"d/dt * z = {m['eqs'][1]}", f"d/dt * w = {m['eqs'][2]}"]
+    eqs += [des[i] for i in order]       # the order of the equations fixes the layout of the state vector
     variables = {'x': f"output({Y0['x']})", 'z': f"variable({Y0['z']})", 'w': f"variable({Y0['w']})", 'p': PAR['p'], 'g': PAR['g']}
     if uses_m:
         variables['m'] = 'variable(0.0)'
@@ -43,6 +44,8 @@ def job(j):
     if dde:
         kw['solver'] = 'scipy'
     try:
+        if j.get('prelude'):      # the same equations were compiled before in this process with another state layout
+            build(m, j.get('lit'), order=(2, 0, 1)).get_jacobian_func('jf', 1e-3, sparse=j['sparse'], **kw)
         f, fa, fnames, fsvm = build(m, j.get('lit')).get_run_func('vf', 1e-3, **kw)
         J, ja, jnames, jsvm = build(m, j.get('lit')).get_jacobian_func('jf', 1e-3, sparse=j['sparse'], **kw)
     except Exception as e:
@@ -123,7 +126,7 @@ def run(ctx):
     rng = random.Random(ctx.seed)
     rng.shuffle(models)
     models = models[:200 if tier == 'quick' else 2500]
-    jobs = [dict(m=m, sparse=(k % 3 == 0), lit=(k % 2 == 1), seed=ctx.seed * 1000 + k) for k, m in enumerate(models)]
+    jobs = [dict(m=m, sparse=(k % 3 == 0), lit=(k % 2 == 1), seed=ctx.seed * 1000 + k, prelude=(k % 4 == 2)) for k, m in enumerate(models)]
     outs = run_cases(job, jobs, timeout=600)
     verd = {}
     for j, o in zip(jobs, outs):
